@@ -2095,7 +2095,7 @@ class Interp:
             return ("bound", b, name)
         if k == "dict" and name in ("items", "keys", "values", "get", "update", "pop", "setdefault", "copy", "__getitem__", "__contains__", "__len__"):
             return ("bound", b, name)
-        if k == "list" and name in ("append", "extend", "index", "pop", "insert", "remove", "sort", "reverse", "count", "copy", "__getitem__", "__contains__", "__len__"):
+        if k == "list" and name in ("append", "extend", "index", "pop", "insert", "remove", "sort", "reverse", "count", "copy", "clear", "add", "discard", "update", "__getitem__", "__contains__", "__len__"):
             return ("bound", b, name)
         if k == "bufobj":
             return ("bound", b, name)
@@ -2855,6 +2855,23 @@ class Interp:
             if name == "extend" and args:
                 items = self.iterate(args[0])
                 l.extend(items if items is not None else [self.element_of(args[0])])
+                return C_NONE
+            if name == "add" and len(args) == 1:
+                # a set (modelled as the list of its members): a member that is there already is not added again
+                if not any(x is args[0] or x == args[0] for x in l):
+                    l.append(args[0])
+                return C_NONE
+            if name == "discard" and len(args) == 1:
+                for i_, x in enumerate(l):
+                    if x is args[0] or x == args[0]:
+                        del l[i_]
+                        break
+                return C_NONE
+            if name == "update" and args:
+                for a_ in args:
+                    for x in (self.iterate(self.force(a_)) or [self.element_of(a_)]):
+                        if not any(y is x or y == x for y in l):
+                            l.append(x)
                 return C_NONE
             if name == "index":
                 a0_ = self.concrete(args[0]) if args and args[0][0] == "atom" else (args[0] if args else None)
